@@ -146,6 +146,21 @@ GEN(int) @G(n int) {
 	RETURN
 }`, Drives: []Drive{gen("int", "@G", "5"), gen("int", "@G", "2")}},
 
+	{Name: "ArrayRangeNotAddressable", Props: []string{"C04", "C11"}, Src: `
+func @arr() [3]int { return [3]int{1, 2, 3} }
+GEN(int) @G() {
+	for i, v := range @arr() { // an array VALUE that is not addressable: a function result
+		YIELD(i*10 + v)
+	}
+	RETURN
+}`, Drives: []Drive{gen("int", "@G", "")}},
+	{Name: "ArrayRangeLiteral", Props: []string{"C04", "C11"}, Src: `
+GEN(int) @G() {
+	for _, v := range [2]int{7, 8} { // a composite literal is not addressable either
+		YIELD(v)
+	}
+	RETURN
+}`, Drives: []Drive{gen("int", "@G", "")}},
 	{Name: "RangeBodyRedeclares", Props: []string{"C04", "C03"}, Src: `
 // the body of a range statement is its own block: it may redeclare the range variables, and closures made
 // before the redeclaration keep seeing the range variables
